@@ -171,7 +171,7 @@ def inject_faults(ch, script, g, ended, netlistable):
                 pos = ch.rint(0, seams.DEFAULT_NPASSES, "pos")
             # half of these passes rewrite the offender before they fail (dirty), wherever they stand
             # ... and one in five is interrupted (a BaseException) instead of failing
-            block.append(["fault", "boundary", pos, offender, (1 if ch.chance(1, 2) else 0) + (2 if ch.chance(1, 5) else 0), label])
+            block.append(["fault", "boundary", pos, offender, (1 if ch.chance(1, 2) else 0) + (ch.weighted([(3, 0), (1, 2), (1, 4)], "fexc")), label])
         elif kind == "mid":
             # a rewriting pass that has something to rewrite in this hierarchy, if there is one
             have = []
@@ -703,7 +703,7 @@ def run(scn):
 def _interrupted(e1, e2):
     """One of the two errors is an interruption (BaseException) or the library's report of one: what a
     retry reports after an interruption is not pinned down - only that it raises, and not 'circular'."""
-    return any(e[0] == "InjectedAbort" or "interrupted" in e[1] for e in (e1, e2))
+    return any(e[0] == "InjectedAbort" for e in (e1, e2))
 
 
 def design_at(ops, k):
